@@ -85,6 +85,9 @@ type dataCase struct {
 	Chunk   int           `json:"writer_chunk"`
 	PipeBuf int           `json:"pipe_buffer"`
 	Dur     time.Duration `json:"duration"`
+	// the relay's Resources come from relay.DefaultResources() with fields assigned, and a sibling relay
+	// with far wider limits is configured the same way afterwards
+	ViaDefaults bool `json:"resources_built_from_DefaultResources,omitempty"`
 }
 
 func baseCfg() relayCfg {
@@ -105,6 +108,7 @@ func runDataCase(t *testing.T, dc dataCase) (res *histResult) {
 	res.bubble = run.Bubble(t, func(t *testing.T) {
 		cfg := baseCfg()
 		cfg.LimitData, cfg.Buf, cfg.LimitDur = dc.Limit, dc.Buf, dc.Dur
+		cfg.ViaDefaults = dc.ViaDefaults
 		w, err := newWorld(cfg, limitsWith(rcmgr.ResourceLimits{}, rcmgr.ResourceLimits{}), nil)
 		if err != nil {
 			res.problems = append(res.problems, problem{"harness:setup", err.Error()})
@@ -155,6 +159,9 @@ func runDataCase(t *testing.T, dc dataCase) (res *histResult) {
 		}
 		if dc.Fwd > dc.Limit || dc.Rev > dc.Limit {
 			res.classes["data_payload_above_limit"]++
+			if dc.ViaDefaults {
+				res.classes["data_payload_above_limit_beside_a_sibling_relay_with_wider_limits"]++
+			}
 		}
 		if dc.Fwd == dc.Limit || dc.Rev == dc.Limit {
 			res.classes["data_payload_equals_limit"]++
@@ -279,7 +286,7 @@ func dataAndDuration(t *testing.T, r *run.R) {
 						if L > 1<<14 {
 							chunk = 8192
 						}
-						dcs = append(dcs, dataCase{Limit: L, Buf: buf, Fwd: fwd, Rev: rev, Slow: slow, Chunk: chunk, PipeBuf: 1024, Dur: 2 * time.Minute})
+						dcs = append(dcs, dataCase{Limit: L, Buf: buf, Fwd: fwd, Rev: rev, Slow: slow, Chunk: chunk, PipeBuf: 1024, Dur: 2 * time.Minute, ViaDefaults: len(dcs)%3 == 1})
 					}
 				}
 			}
